@@ -31,6 +31,7 @@ Required == {"nt_point",          \* W z = W^-T s (= lambda)
              "affine_ds",         \* the affine term is lambda o lambda
              "combined_shift",    \* the corrector is W^-T ds o W dz - sigma mu e
              "ds_offset",         \* the slack-recovery offset is W^T (lambda \ ds)
+             "unit_start_is_identity",   \* unit_initialization overwrites (s, z) with the identity element e, whatever the buffers held
              "identity_reset_mul_hs", "identity_reset_block"}   \* set_identity_scaling() on a scaled cone: mul_Hs and the KKT block (diagonal, dense or expanded) are the identity again
 
 Holds(e, name) == name \in DOMAIN e.ids /\ FLe(e.ids[name][1], e.ids[name][2])
